@@ -20,7 +20,7 @@ N_PIs == {[lo |-> <<"a">>, v |-> <<"d">>]}
 XmlLang == Nm(XmlNsUri, <<"l","a","n","g">>)
 L_ElemNames == {Nm(<<>>, <<"a">>)}
 L_AttrNames == {XmlLang, Nm(<<>>, <<"l","a","n","g">>)}   \* a plain lang attribute (the XHTML idiom lang="en" xml:lang="en") is not xml:lang
-L_AttrValues == {<<"e","n">>, <<"E","N","-","u","s">>, <<"f","r">>, <<>>}
+L_AttrValues == {<<"e","n">>, <<"E","N","-","u","s","-","x">>, <<"f","r">>, <<>>}   \* a tag with three subtags: ranges en, en-US and en-us-x match it
 L_Texts == {<<"t">>}
 L_Comments == {<<"c">>}
 View == <<doc, open, phase>>
